@@ -121,7 +121,7 @@ int main(int argc, char** argv) {
         w[0] = (unsigned char)(mt << 5 | 27);
         for (int b = 0; b < 8; b++) w[1 + b] = (unsigned char)(c >> (56 - 8 * b));
         vh_ev_clear();
-        struct cbor_decoder_result d = cbor_stream_decode(w, wins[wi], &vh_recording_callbacks, NULL);
+        struct cbor_decoder_result d = cbor_stream_decode(w, wins[wi], &vh_recording_callbacks, VH_CTX);
         fprintf(vh_out, "{\"e\":\"claim\",\"mt\":%d", mt);
         b8("n", c); b8("win", wins[wi]);
         vh_kstr("st", d.status == CBOR_DECODER_FINISHED ? "fin" : d.status == CBOR_DECODER_NEDATA ? "nedata" : "error");
